@@ -68,6 +68,10 @@ def run(ck):
     S.cmd("pp", "giant", (1 << 13) + 8, 9)
     for c in ([4095, 4096, 4100] if quick else [2047, 2048, 2049, 4095, 4096, 4097, 4100, 8190]):
         add(f"size {c} (large domain)", protocol.filler(c - 4, rng), pp="giant", routes=("direct", "compressed", "bytes"))
+    # highly regular circuits (long runs of identical gates: their compressed description deflates 20x and more)
+    for reps in ([400] if quick else [64, 250, 400, 3000]):
+        add(f"{reps} identical gates", ["w " + hx(rng.small()), "w " + hx(rng.small()), "pub " + hx(rng.scalar())] + ["aeq $0 $0"] * reps, pp="giant" if reps > 2000 else "huge", routes=("direct", "compressed", "bytes"))
+        add(f"{reps} identical multiplication gates", ["w " + hx(rng.small()), "w " + hx(rng.small())] + ["gmul 1 0 0 0 0 3 - $0 $1 0 0"] * reps, pp="giant" if reps > 2000 else "huge", routes=("direct", "compressed", "bytes"))
     # gadget mixes
     for _ in range(6 if quick else 60):
         add("gadget mix", protocol.gadget_circuit(rng, size_hint=rng.randrange(0, 9)), pp="huge", routes=("direct", "compressed", "bytes"))
